@@ -276,6 +276,12 @@ def part_b(ctx, ncases):
                 doc["nunavut.lang." + other] = rand_section(R, other, False)
             p.write_text(yaml.safe_dump(doc))
             files.append(p)
+        if len(files) >= 2 and R.random() < 0.35:
+            # a file listed again later re-asserts its values over whatever came in between (A B A)
+            k = R.randrange(len(files) - 1)
+            files.append(files[k])
+            fmaps.append(fmaps[k])
+            ctx.count("cases_with_repeated_file")
         over = rand_section(R, lang, allow_default=True)
         snap_over = marked(over)
         exp = expected_section(lang, bases[lang], fmaps, over)
@@ -384,6 +390,11 @@ def part_d(ctx, nruns):
             p = d / ("%s%d_r%d_%d.yaml" % (R.choice("zmacqx"), R.randint(0, 9), i, j))   # order given != sorted order
             p.write_text(yaml.safe_dump({sect: m}))
             cfg_files.append(str(p))
+        if len(cfg_files) >= 2 and R.random() < 0.35:
+            k = R.randrange(len(cfg_files) - 1)
+            cfg_files.append(cfg_files[k])
+            fmaps.append(fmaps[k])
+            ctx.count("cases_with_repeated_file")
         if cfg_files:   # nargs="*": all files follow ONE --configuration flag (a repeated flag replaces, argparse semantics)
             args += ["--configuration"] + cfg_files
         # flags: store_true flags absent are *defaults* and must not displace file values
